@@ -435,7 +435,10 @@ impl StreamSocket {
                 // writing through its write half, has sent and not yet had
                 // read.
                 Err(Closed(())) => {
-                    if matches!(self.buf.swap_remove(&self.recv_seq), Some(SequencedSegment::Fin)) {
+                    if matches!(
+                        self.buf.swap_remove(&self.recv_seq),
+                        Some(SequencedSegment::Fin)
+                    ) {
                         continue;
                     }
                     return Err(Protocol::Tcp(Segment::Rst));
